@@ -15,10 +15,6 @@ func AuthorityKey(u *url.URL) string {
 // and returns a host:port. The port 443 is added if needed.
 func AuthorityAddr(scheme, authority string) (addr string) {
 	host, port := AuthorityHostPort(scheme, authority)
-	// IPv6 address literal, without a port:
-	if strings.HasPrefix(host, "[") && strings.HasSuffix(host, "]") {
-		return host + ":" + port
-	}
 	addr = net.JoinHostPort(host, port)
 	return
 }
@@ -31,6 +27,11 @@ func AuthorityHostPort(scheme, authority string) (host, port string) {
 			port = "80"
 		}
 		host = authority
+		// an IPv6 literal without a port: the host is what is inside the brackets,
+		// as SplitHostPort reports it when a port is present
+		if strings.HasPrefix(host, "[") && strings.HasSuffix(host, "]") {
+			host = host[1 : len(host)-1]
+		}
 	}
 	if a, err := idna.ToASCII(host); err == nil {
 		host = a
